@@ -96,6 +96,10 @@ let eval fn args =
   in
   go !evaluators
 
+(* --shard i/n: evaluate only every n-th case (directives are always processed) *)
+let shard = ref (0, 1)
+let seen = ref 0
+
 let run_file path =
   let ic = open_in path in
   let total = ref 0 and mism = ref 0 and lineno = ref 0 in
@@ -113,7 +117,12 @@ let run_file path =
              | [] -> failwith (Printf.sprintf "line %d: no '=' separator" !lineno)
            in
            let args, obs = cut [] rest in
+           (* context lines (FN starting with '@') carry state for later lines: every shard evaluates them *)
+           let is_ctx = String.length fn > 0 && fn.[0] = '@' in
+           let fn = if is_ctx then String.sub fn 1 (String.length fn - 1) else fn in
            if Ctx.handle_directive fn args obs then ()
+           else if (not is_ctx) && (incr seen; !seen mod snd !shard <> fst !shard) then ()
+           else if is_ctx && fst !shard <> 0 then ignore (try eval fn args with _ -> "")
            else begin
              incr total;
              let m = try eval fn args with Failure e -> "driver-error:" ^ e | Stack_overflow -> "driver-error:stack" in
